@@ -9,6 +9,8 @@ PROP = dict(
                        "Comdex.C05.fill_price_within_limit_engine", "Comdex.C05.fill_price_within_limit_single",
                        "Comdex.C05.matched_receives_positive", "Comdex.C05.matched_receives_positive_single",
                        "Comdex.C05.quote_dust_bounds", "Comdex.C05.quote_dust_bounds_rounds",
+                       "Comdex.C05.quote_dust_bounds_match", "Comdex.C05.quote_dust_bounds_single",
+                       "Comdex.C05.quote_dust_counterexample",
                        "Comdex.C05.base_conserved_partial", "Comdex.C05.base_conserved_partial_buys",
                        "Comdex.C05.base_conserved_partial_single", "Comdex.C05.base_conserved_partial_step",
                        "Comdex.C05.base_conserved_partial_match",
